@@ -262,7 +262,7 @@ def side_case(seed):
 def run(ctx):
     quick = ctx.tier == 'quick'
     lib.stage_proof(ctx, PROP_FILES, ['Check/C11.vo'])
-    n = 160 if quick else 2500
+    n = 160 if quick else 5000
     cases, metas = [], []
     for k in range(n):
         cs = ctx.rng.getrandbits(48)
@@ -282,7 +282,7 @@ def run(ctx):
         cases.append(lit)
         metas.append({'desc': {'gen': 'gen_int_case', 'case_seed': cs, 'case': d}, 'tags': {'which': d['which']}})
     bad = lib.stage_correspondence(ctx, 'tdvp', REQ, 'check_C11', cases, metas)
-    n_side = 260 if quick else 5000
+    n_side = 260 if quick else 15000
     if bad:
         n_side *= 3
     for k in range(n_side):
